@@ -4,7 +4,7 @@ import json, sys
 pid, wt = sys.argv[1], sys.argv[2]
 variant = sys.argv[3] if len(sys.argv) > 3 else ""
 p = [json.loads(l) for l in open('/verif/properties.jsonl') if json.loads(l)['id'] == pid][0]
-print(f"""You are given a scratch git worktree of the Go repository spikeekips/mitum (module github.com/spikeekips/mitum, a blockchain node framework implementing the ISAAC voting consensus) at {wt}. Work ONLY inside {wt} and {wt}-out (create it). Do not read or write /verif or /repo. The sandbox is offline; for every Go command use: export GOFLAGS=-mod=mod GOPROXY=off GOSUMDB=off GOTOOLCHAIN=local
+print(f"""You are given a scratch git worktree of the Go repository spikeekips/mitum (module github.com/spikeekips/mitum, a blockchain node framework implementing the ISAAC voting consensus) at {wt}. Work ONLY inside {wt} and {wt}-out (create it). Do not read or write /verif or /repo. Never use `git stash`, `git checkout <branch>`, `git reset` or `git worktree` (the stash and refs are shared with other people's worktrees); to compare with/without your change use `git diff > file`, `git apply -R file`, `git apply file`. The sandbox is offline; for every Go command use: export GOFLAGS=-mod=mod GOPROXY=off GOSUMDB=off GOTOOLCHAIN=local
 
 Here is a semantic property the code base is supposed to satisfy:
 
